@@ -151,13 +151,23 @@ class ExtentAttribute:
 
     extent = ttml_element.attrib.get(ExtentAttribute.qn)
 
-    if extent is not None:
+    if extent is not None and extent != "auto":
 
       s = extent.split(" ")
 
-      (w, w_units) = utils.parse_length(s[0])
+      if len(s) != 2:
+        LOGGER.error("Syntax error in tts:extent on <tt>")
+        return None
 
-      (h, h_units) = utils.parse_length(s[1])
+      try:
+
+        (w, w_units) = utils.parse_length(s[0])
+
+        (h, h_units) = utils.parse_length(s[1])
+
+      except ValueError:
+        LOGGER.error("Syntax error in tts:extent on <tt>")
+        return None
 
       if w_units != "px" or h_units != "px":
         LOGGER.error("ttp:extent on <tt> does not use px units")
@@ -193,13 +203,19 @@ class ActiveAreaAttribute:
         LOGGER.error("Syntax error in ittp:activeArea on <tt>")
         return None
 
-      (left_offset, left_offset_units) = utils.parse_length(s[0])
+      try:
 
-      (top_offset, top_offset_units) = utils.parse_length(s[1])
+        (left_offset, left_offset_units) = utils.parse_length(s[0])
 
-      (w, w_units) = utils.parse_length(s[2])
+        (top_offset, top_offset_units) = utils.parse_length(s[1])
 
-      (h, h_units) = utils.parse_length(s[3])
+        (w, w_units) = utils.parse_length(s[2])
+
+        (h, h_units) = utils.parse_length(s[3])
+
+      except ValueError:
+        LOGGER.error("Syntax error in ittp:activeArea on <tt>")
+        return None
 
       if w_units != "%" or h_units != "%" or left_offset_units != "%" or top_offset_units != "%":
         LOGGER.error("ittp:activeArea on <tt> must use % units")
